@@ -484,8 +484,22 @@ def units_validate():
 def _is_validation_throw(f, n):
     if n["k"] == "throw" and any(e in n.get("t", "") for e in VALIDATION_EXC):
         return True
-    if n["k"] in ("call", "mcall") and f.call_name(n).startswith("throw_"):
+    if n["k"] in ("call", "mcall") and (f.call_name(n).startswith("throw_") or f.call_name(n).lstrip("~") == "check_space_dimension_overflow"):
         return True
+    return False
+
+
+R141_EXC = {
+    ("Box", "concatenate_assign"): "x.set_empty() precedes check_space_dimension_overflow(): the only check reached after the write is the overflow of the space dimension, which would need an operand holding more than max_size() / 2 intervals in memory — no such call can be made (found when the overflow helper was added to the validation throws; not replayable, hence neither a finding nor a fix)",
+}
+
+
+def how_is_overflow_check(f, path, tids):
+    """the validation reached at the end of the offending path is a check_space_dimension_overflow() call"""
+    for t in tids:
+        n = f.nodes.get(t)
+        if n is not None and n["k"] in ("call", "mcall") and f.call_name(n).lstrip("~") == "check_space_dimension_overflow" and path and path[-1][1] and n.get("l") == path[-1][1][-1]:
+            return True
     return False
 
 
@@ -529,6 +543,8 @@ def r14_1(ctx):
                 break
         if bad is None:
             ctx.ok(rid, inst, f.where())
+        elif (f.clsn, f.name) in R141_EXC and how_is_overflow_check(f, bad[3], tids):
+            ctx.excepted(rid, inst, f.where(bad[0]), R141_EXC[(f.clsn, f.name)])
         else:
             wn, r, how, p = bad
             last = p[-1][1][-1] if p[-1][1] else "?"
